@@ -9,7 +9,10 @@ from engine import xh, symfs
 from engine.universe import World
 
 MINE = {"returned-value", "round-trip:stored-object-not-retrievable", "round-trip:retrieved-bytes-differ-from-stored",
-        "result-class", "store-state:object-bytes-changed", "model:obj", "model:bind"}
+        "result-class", "store-state:object-bytes-changed", "model:obj", "model:bind",
+        # the history half of C01 ("until deleted, whatever calls are made on other pids") is inductive: it needs the
+        # bookkeeping invariant to be closed under the calls on the other pid as well
+        "bookkeeping-not-exact", "other-pid-references-changed"}
 KINDS = ["path", "Path", "stream", "bytesio"]
 STORE_ALGOS = ["MD5", "SHA-1", "SHA-256", "SHA-384", "SHA-512"]
 
@@ -19,7 +22,7 @@ def c01_universe(tier, algorithm):
     cs = [b"", b"x", b"abc", b"abcd", b"abcde", b"0123456789ab"]
     if tier != "thorough":
         cs = [b"", b"abcd", b"abcde", b"0123456789ab"]
-    return dict(pids=["a", "b"], contents=cs, formats=[None], algorithm=algorithm, fake_cid=False, sym_dirs=False)
+    return dict(pids=["xb", "b"], contents=cs, formats=[None], algorithm=algorithm, fake_cid=False, sym_dirs=False)
 
 
 def menu_fn(w):
